@@ -307,7 +307,24 @@ def shape_order(v):
   return d
 
 
-SHAPES = {"order": shape_order, "moving": shape_moving, "styled": shape_styled, "twop": shape_twop, "brset": shape_brset, "rubyparts": shape_rubyparts, "ruby": shape_ruby, "nested": shape_nested, "regions": shape_regions, "display": shape_display, "background": shape_background}
+def shape_tworegions(v):
+  """two regions with the same alignment and geometry class, each with its own symbolic begin / end and one paragraph: candidates for
+  merging by the LCD filter exactly when their intervals are EQUAL (not when they are merely close)"""
+  d = m.ContentDocument()
+  for k in (1, 2):
+    r = m.Region(f"r{k}", d)
+    r.set_begin(v(f"q{k}b")); r.set_end(v(f"q{k}e"))
+    r.set_style(SP.DisplayAlign, sp.DisplayAlignType.after)
+    d.put_region(r)
+  body = m.Body(d); body.set_id("b"); d.set_body(body)
+  div = m.Div(d); div.set_id("d"); body.push_child(div)
+  for k, text in ((1, "ALPHA"), (2, "BRAVO")):
+    p = m.P(d); p.set_id(f"p{k}"); p.set_region(d.get_region(f"r{k}")); div.push_child(p)
+    sp_ = m.Span(d); sp_.set_id(f"s{k}"); p.push_child(sp_); sp_.push_child(m.Text(d, text))
+  return d
+
+
+SHAPES = {"tworegions": shape_tworegions, "order": shape_order, "moving": shape_moving, "styled": shape_styled, "twop": shape_twop, "brset": shape_brset, "rubyparts": shape_rubyparts, "ruby": shape_ruby, "nested": shape_nested, "regions": shape_regions, "display": shape_display, "background": shape_background}
 # which of the timing variables are present (None otherwise); a few masks per shape keep the path count moderate
 MASKS = {
   "order": [("p1b", "p2b", "p3b"), ("p1b", "p1e", "p2b", "p2e"), ("p1e", "p2b", "p3e"), ("p1e", "p4b", "p4e")],
